@@ -375,6 +375,49 @@ def write_summaries(repo: Repo) -> Dict[str, set]:
     return summ
 
 
+def read_summaries(repo: Repo) -> Dict[str, set]:
+    """method/function name -> attribute names it may read (transitively, by name)."""
+    cached = getattr(repo, "_read_summaries", None)
+    if cached is not None:
+        return cached
+    direct: Dict[str, set] = {}
+    calls: Dict[str, set] = {}
+    for fi in repo.all_functions():
+        if fi.decorators and ("property" in fi.decorators or any(d.endswith(".setter") for d in fi.decorators)):
+            continue
+        rs, cs = set(), set()
+        for n in ast.walk(fi.node):
+            if isinstance(n, ast.Attribute) and isinstance(n.ctx, ast.Load):
+                rs.add(n.attr)
+            if isinstance(n, ast.Call):
+                if isinstance(n.func, ast.Attribute):
+                    cs.add(n.func.attr)
+                elif isinstance(n.func, ast.Name):
+                    cs.add(n.func.id)
+        direct.setdefault(fi.name, set()).update(rs)
+        calls.setdefault(fi.name, set()).update(cs)
+    summ = {k: set(v) for k, v in direct.items()}
+    changed = True
+    while changed:
+        changed = False
+        for name, cs in calls.items():
+            for c in cs:
+                if c in summ and c != name:
+                    add = summ[c] - summ[name]
+                    if add:
+                        summ[name] |= add
+                        changed = True
+    repo._read_summaries = summ
+    return summ
+
+
+def root_object(t: Term) -> Term:
+    """The object a path expression starts from (self, a fresh object, a parameter, ...)."""
+    while t[0] in ("attr", "idx", "old"):
+        t = t[1]
+    return t
+
+
 def mutated_fields(stmts: List[ast.stmt], repo: Repo = None):
     """Syntactic over-approximation of the attribute names a block may write."""
     out, calls = _direct_writes(stmts)
